@@ -1,8 +1,207 @@
+"""C11 registration + translator of the Zip/ZipLongest/CrossSingleton match tables."""
+import os, re
+
+GEN_REL = "lean/HvPull/HvPull/Gen/PullTables.lean"
+
+
+def _strip_comments(src):
+    return re.sub(r"//[^\n]*", "", src)
+
+
+def _block_after(src, start):
+    """text of the balanced {...} block whose '{' is the first one at/after `start`"""
+    i = src.index("{", start)
+    depth, j = 0, i
+    while True:
+        c = src[j]
+        if c == "{":
+            depth += 1
+        elif c == "}":
+            depth -= 1
+            if depth == 0:
+                return src[i + 1:j]
+        j += 1
+
+
+def _arms(block):
+    """[(pattern_text, body_text)] of a match block"""
+    arms, i, n = [], 0, len(block)
+    while True:
+        k = block.find("=>", i)
+        if k < 0:
+            break
+        pat = block[i:k].strip()
+        j = k + 2
+        while block[j].isspace():
+            j += 1
+        if block[j] == "{":
+            depth, e = 0, j
+            while True:
+                if block[e] == "{":
+                    depth += 1
+                elif block[e] == "}":
+                    depth -= 1
+                    if depth == 0:
+                        break
+                e += 1
+            body = block[j:e + 1]
+            e += 1
+        else:
+            depth, e = 0, j
+            while e < n and not (block[e] == "," and depth == 0):
+                if block[e] in "({[":
+                    depth += 1
+                elif block[e] in ")}]":
+                    depth -= 1
+                e += 1
+            body = block[j:e]
+        arms.append((pat, body))
+        while e < n and (block[e].isspace() or block[e] == ","):
+            e += 1
+        i = e
+    return arms
+
+
+KIND = {"Ready": "ready", "Pending": "pending", "Ended": "ended"}
+
+
+def _pair_table(src, what):
+    src = _strip_comments(src)
+    start = src.index("match (pull_left, pull_right)")
+    table = {}
+    for pat, body in _arms(_block_after(src, start)):
+        pairs = re.findall(r"\(\s*PullStep::(\w+)\s*\([^()]*\)\s*,\s*PullStep::(\w+)\s*\([^()]*\)\s*\)", pat)
+        if not pairs:
+            raise ValueError(f"{what}: cannot read pattern `{pat[:60]}`")
+        if "PullStep::Ready(" in body:
+            if "EitherOrBoth::Both" in body or "EitherOrBoth" not in body:
+                act = "both"
+            elif "EitherOrBoth::Left" in body:
+                act = "left"
+            elif "EitherOrBoth::Right" in body:
+                act = "right"
+            else:
+                raise ValueError(f"{what}: ready arm not understood")
+        elif "this.buffer" in body and "Either::Left" in body and "PullStep::pending()" in body:
+            act = "bufLeft"
+        elif "this.buffer" in body and "Either::Right" in body and "PullStep::pending()" in body:
+            act = "bufRight"
+        elif body.strip().rstrip(",") in ("PullStep::pending()", "{ PullStep::pending() }"):
+            act = "pending"
+        elif body.strip().rstrip(",") in ("PullStep::ended()", "{ PullStep::ended() }"):
+            act = "ended"
+        else:
+            raise ValueError(f"{what}: body not understood `{body.strip()[:60]}`")
+        for a, b in pairs:
+            key = (KIND[a], KIND[b])
+            if key in table:
+                raise ValueError(f"{what}: arm {key} twice")
+            table[key] = act
+    if len(table) != 9:
+        raise ValueError(f"{what}: {len(table)} of 9 arms found")
+    return table
+
+
+def _single_table(src, scrutinee_re, what, classify):
+    src = _strip_comments(src)
+    m = re.search(scrutinee_re, src, re.S)
+    if not m:
+        raise ValueError(f"{what}: match not found")
+    table = {}
+    for pat, body in _arms(_block_after(src, m.end() - 1)):
+        k = re.match(r"PullStep::(\w+)\s*\(", pat)
+        if not k:
+            raise ValueError(f"{what}: cannot read pattern `{pat[:60]}`")
+        table[KIND[k.group(1)]] = classify(body)
+    if len(table) != 3:
+        raise ValueError(f"{what}: {len(table)} of 3 arms found")
+    return table
+
+
+def _cls_single(body):
+    if "singleton_state.insert(" in body:
+        return "store"
+    if "return PullStep::pending()" in body:
+        return "pending"
+    if "return PullStep::ended()" in body:
+        return "ended"
+    raise ValueError("cross singleton arm not understood")
+
+
+def _cls_item(body):
+    if "PullStep::Ready(" in body and "singleton.clone()" in body:
+        return "ready"
+    if body.strip().rstrip(",") == "PullStep::pending()":
+        return "pending"
+    if body.strip().rstrip(",") == "PullStep::ended()":
+        return "ended"
+    raise ValueError("cross item arm not understood")
+
+
+def translate(ctx):
+    repo, verif = ctx["repo"], ctx["verif"]
+    d = os.path.join(repo, "dfir_pipes/src/pull")
+    res = []
+    tables = {}
+    for name, f in (("zipTable", "zip.rs"), ("zipLongestTable", "zip_longest.rs")):
+        try:
+            tables[name] = _pair_table(open(os.path.join(d, f)).read(), f)
+            res.append((f"{f} match (pull_left, pull_right)", True, "9 arms"))
+        except Exception as ex:
+            res.append((f"{f} match (pull_left, pull_right)", False, repr(ex)))
+    try:
+        src = open(os.path.join(d, "cross_singleton.rs")).read()
+        tables["crossSingleTable"] = _single_table(
+            src, r"match\s+this\s*\.singleton_pull\s*\.pull\([^{]*\{", "cross_singleton.rs singleton", _cls_single)
+        tables["crossItemTable"] = _single_table(
+            src, r"match\s+this\s*\.item_pull\s*\.pull\([^{]*\{", "cross_singleton.rs item", _cls_item)
+        res.append(("cross_singleton.rs singleton/item matches", True, "3+3 arms"))
+    except Exception as ex:
+        res.append(("cross_singleton.rs singleton/item matches", False, repr(ex)))
+    if not all(ok for _, ok, _ in res):
+        return res
+    ks = ["ready", "pending", "ended"]
+    out = ["/- GENERATED by checks/C11.py (translate) from /repo/dfir_pipes/src/pull/{zip,zip_longest,cross_singleton}.rs.",
+           "   Do not edit: rewritten on every `./check C11`. -/",
+           "namespace HvPull.Gen",
+           "",
+           "/-- kind of a `PullStep` -/",
+           "inductive K where",
+           "  | ready | pending | ended",
+           "  deriving DecidableEq, Repr",
+           "",
+           "/-- what a match arm does -/",
+           "inductive Act where",
+           "  | both | left | right | bufLeft | bufRight | pending | ended | store | ready",
+           "  deriving DecidableEq, Repr",
+           ""]
+    for name in ("zipTable", "zipLongestTable"):
+        out.append(f"def {name} : K → K → Act")
+        for a in ks:
+            for b in ks:
+                out.append(f"  | .{a}, .{b} => .{tables[name][(a, b)]}")
+        out.append("")
+    for name in ("crossSingleTable", "crossItemTable"):
+        out.append(f"def {name} : K → Act")
+        for a in ks:
+            out.append(f"  | .{a} => .{tables[name][a]}")
+        out.append("")
+    out.append("end HvPull.Gen")
+    text = "\n".join(out) + "\n"
+    p = os.path.join(verif, GEN_REL)
+    old = open(p).read() if os.path.exists(p) else None
+    if old != text:
+        os.makedirs(os.path.dirname(p), exist_ok=True)
+        with open(p, "w") as f:
+            f.write(text)
+    return res
+
 SPEC = dict(
     id="C11",
     lean_project="HvPull", props_module="HvPull.Props.C11", driver="hvdrv_pull",
     harness="hv_pull", bin="hv_pull", mode="c11",
     cases={"quick": 3000, "thorough": 40000},
+    translate=translate,
     level="proof",
     design_ref="DESIGN.md §5 C11",
     technique="Lean 4 refinement proofs (script induction, buffered item in the invariant) + poll-by-poll differential correspondence with the real combinators",
@@ -16,7 +215,9 @@ SPEC = dict(
                 "poll_fn/stream/stream_ready sources, and the draining futures collect/for_each/accumulate_all (as folds). "
                 "Tie: the harness implements a scripted Pull / Stream / Future, drives each real dfir_pipes combinator poll "
                 "by poll (answer + size_hint after every poll, closure logs) and the same op lines run through the compiled "
-                "model; std-iterator / fused / bracket oracles are evaluated on the real code."),
+                "model; std-iterator / fused / bracket oracles are evaluated on the real code. The match tables of Zip, "
+                "ZipLongest and CrossSingleton are re-extracted from the Rust source on every run (Gen/PullTables.lean) and "
+                "the model is proved to take the same arm (K_table_matches_source)."),
     level_note=("Trusted: Lean kernel + propext/Classical.choice/Quot.sound; Pin/Context/Toggle/Meta bookkeeping erased; "
                 "usize as Nat (saturating/checked arithmetic never overflows in the model); inner iterators/streams/futures "
                 "modelled as the list / script / (pendings, output) they produce; each theorem is about one combinator over "
